@@ -112,10 +112,22 @@ def mapping(coarse, fine):
     return out
 
 
+def _edge_key(u, v):
+    return (min(u, v), max(u, v))
+
+
+def _bonding_set(value):
+    # the pair is stored in creation orientation; compare it as an unordered pair
+    if isinstance(value, (tuple, list)):
+        return tuple(sorted(map(str, value)))
+    return value
+
+
 def summary(fine):
-    """Structural summary used by the chaining oracle (names + edges/orders)."""
+    """Structural summary used by the chaining oracle (names, edges with order and descriptor pair)."""
     return ({n: fine.nodes[n].get("atomname") for n in fine.nodes},
-            {(min(u, v), max(u, v)): float(o if o is not None else 1) for u, v, o in fine.edges(data="order")})
+            {_edge_key(u, v): (float(d.get("order", 1) if d.get("order") is not None else 1), _bonding_set(d.get("bonding")))
+             for u, v, d in fine.edges(data=True)})
 
 
 def chaining(prev_summary, coarse):
@@ -131,10 +143,17 @@ def chaining(prev_summary, coarse):
             out.append(("C06.chaining", "coarse node %r is named %r, previous fine node was %r"
                         % (node, coarse.nodes[node].get("fragname"), names[node])))
             return out
-    got = {(min(u, v), max(u, v)): float(o if o is not None else 1) for u, v, o in coarse.edges(data="order")}
-    if got != edges:
+    got = {_edge_key(u, v): (float(d.get("order", 1) if d.get("order") is not None else 1), _bonding_set(d.get("bonding")))
+           for u, v, d in coarse.edges(data=True)}
+    if set(got) != set(edges) or any(got[e][0] != edges[e][0] for e in got):
         out.append(("C06.chaining", "coarse edges/orders differ from previous fine graph (%d vs %d edges)"
                     % (len(got), len(edges))))
+        return out
+    for edge in sorted(got):
+        if got[edge][1] != edges[edge][1]:
+            out.append(("C06.chaining C06.bonding", "edge %r of the coarse graph carries descriptor pair %r, the previous step created it with %r"
+                        % (edge, got[edge][1], edges[edge][1])))
+            break
     return out
 
 
